@@ -4,6 +4,12 @@ package c00
 import (
 	"bytes"
 	"encoding/binary"
+	"errors"
+	"fmt"
+	"io"
+	"sort"
+	"sync"
+	"sync/atomic"
 
 	"verifh/ref"
 	"verifh/sx"
@@ -40,4 +46,38 @@ func Check_Bug() {
 	n := sx.Range("n", 0, 2)
 	sx.Assert(x != 77+uint32(n), "not77")
 	sx.Reach("end")
+}
+
+type myErr struct{ code int }
+
+func (e *myErr) Error() string { return "myErr" }
+
+// Check_StdModels exercises the engine's models of reflect/unsafe-based
+// standard-library facilities; the translator validation compares the
+// observations with the native run.
+func Check_StdModels() {
+	a, b, c := sx.U8("a"), sx.U8("b"), sx.U8("c")
+	s := []uint8{a, b, c}
+	sort.Slice(s, func(i, j int) bool { return s[i] < s[j] })
+	sx.Assert(s[0] <= s[1] && s[1] <= s[2], "sorted")
+	sx.Assert(int(s[0])+int(s[1])+int(s[2]) == int(a)+int(b)+int(c), "permutation-sum")
+	var err error = fmt.Errorf("wrapped: %w", &myErr{code: int(a)})
+	var me *myErr
+	sx.Assert(errors.As(err, &me) && me.code == int(a), "errors.As")
+	sx.Assert(!errors.Is(err, io.EOF), "errors.Is")
+	var m sync.Map
+	m.Store("k", b)
+	v, ok := m.Load("k")
+	sx.Assert(ok && v.(uint8) == b, "sync.Map")
+	_, ok = m.Load("other")
+	sx.Assert(!ok, "sync.Map-miss")
+	var av atomic.Value
+	av.Store(c)
+	sx.Assert(av.Load().(uint8) == c, "atomic.Value")
+	var ai atomic.Int64
+	ai.Add(int64(a))
+	ai.Add(5)
+	sx.Assert(ai.Load() == int64(a)+5, "atomic.Int64")
+	sx.Observe("sorted", s, me.code, v, ai.Load())
+	sx.Reach("models")
 }
